@@ -387,13 +387,19 @@ func c03GenApi(o graphOpts) func(c *engine.C) engine.Case {
 			apis = append(apis, api_domain.RestAPI{Uri: fmt.Sprintf("/u%d", i), HttpMethod: []string{"GET", "POST"}[i%2], PackageName: m.Pkg, ClassName: m.Class, MethodName: m.Name})
 		}
 		var di map[string]string
-		if c.Bool("di") {
+		diKind := engine.Pick(c, "di", "none", "one-implementation", "registered-implementation-is-itself-a-key")
+		if diKind != "none" {
 			// the class of node 1 is an injected interface implemented by p.Impl, whose like-named method calls the last node
 			t := g.Model.Methods[1%o.N]
 			di = map[string]string{t.Pkg + "." + t.Class: "p.Impl"}
 			last := g.Model.Methods[o.N-1]
 			g.Model.Methods = append(g.Model.Methods, GMethod{Pkg: "p", Class: "Impl", Name: t.Name,
 				Calls: []GCall{{Pkg: last.Pkg, Class: last.Class, Name: last.Name}}})
+			if diKind == "registered-implementation-is-itself-a-key" {
+				// p.Impl is registered for the interface, and p.Impl2 for p.Impl: a call is resolved once, not transitively
+				di["p.Impl"] = "p.Impl2"
+				g.Model.Methods = append(g.Model.Methods, GMethod{Pkg: "p", Class: "Impl2", Name: t.Name})
+			}
 			c.Tag("di")
 		}
 		return func() engine.Result { return checkApiGraph(g, apis, di) }
